@@ -10,6 +10,7 @@ import (
 	"git.defalsify.org/vise.git/state"
 
 	"verif/mc"
+	"verif/ref"
 )
 
 // C11, passes E and F.
@@ -131,12 +132,100 @@ func typName(t uint8) string {
 	return fmt.Sprint(t)
 }
 
+// c11ListPass (pass G): two sessions whose ids are related (one is a suffix, prefix or infix of the other)
+// hold the same keys; the listing under each must be exactly its own entries, once each.
+func c11ListPass(b kvBackend, typ uint8, sa, sb string) (sig, msg string, steps int) {
+	st := b.New()
+	defer st.cleanup()
+	h, err := st.open()
+	if err != nil {
+		return "", "", 0
+	}
+	ctx := context.Background()
+	keys := []string{"k", "a", "ka"}
+	h.SetPrefix(typ)
+	for _, s := range []string{sa, sb} {
+		h.SetSession(s)
+		for _, k := range keys {
+			steps++
+			if err := h.Put(ctx, []byte(k), []byte(s+":"+k)); err != nil {
+				return "", "", steps // refused: dropped
+			}
+		}
+	}
+	for _, s := range []string{sa, sb} {
+		h.SetSession(s)
+		h.SetPrefix(typ)
+		steps++
+		o := kvApply(h, ref.KVOp{Op: "dump", Key: ""})
+		where := fmt.Sprintf("[%s] sessions %q and %q each hold keys %q under %s; Dump(\"\") under session %q", b.Name, sa, sb, keys, typName(typ), s)
+		if o.Panic != "" {
+			return "panic-dump@" + b.Name, where + " panics: " + o.Panic, steps
+		}
+		if o.Err != nil {
+			return "listing-with-related-session-fails@" + b.Name, fmt.Sprintf("%s fails: %v", where, o.Err), steps
+		}
+		seen := map[string]int{}
+		for _, p := range o.List {
+			seen[p.K]++
+			if p.V != s+":"+p.K {
+				return "listing-with-related-session-wrong@" + b.Name, fmt.Sprintf("%s lists %q=%q", where, p.K, p.V), steps
+			}
+		}
+		for _, k := range keys {
+			if seen[k] != 1 {
+				return "listing-with-related-session-wrong@" + b.Name, fmt.Sprintf("%s lists key %q %d times (listing: %v)", where, k, seen[k], o.List), steps
+			}
+		}
+		if len(seen) != len(keys) {
+			return "listing-with-related-session-wrong@" + b.Name, fmt.Sprintf("%s lists %v", where, o.List), steps
+		}
+	}
+	return "", "", steps
+}
+
+// c11CopyPass (pass H): a record is copied from one place to another by handing the value a Get returned
+// to a Put; the copy is then overwritten with a fresh value of the SAME length. The original must not change.
+func c11CopyPass(b kvBackend, typA uint8, sa string, typB uint8, sb string) (sig, msg string, steps int) {
+	st := b.New()
+	defer st.cleanup()
+	h, err := st.open()
+	if err != nil {
+		return "", "", 0
+	}
+	ctx := context.Background()
+	sel := func(t uint8, s string) { h.SetPrefix(t); h.SetSession(s) }
+	sel(typA, sa)
+	steps += 5
+	if err := h.Put(ctx, []byte("k"), []byte("original")); err != nil {
+		return "", "", steps
+	}
+	v, err := h.Get(ctx, []byte("k"))
+	if err != nil {
+		return "", "", steps
+	}
+	sel(typB, sb)
+	if err := h.Put(ctx, []byte("k"), v); err != nil {
+		return "", "", steps
+	}
+	if err := h.Put(ctx, []byte("k"), []byte("replaced")); err != nil {
+		return "", "", steps
+	}
+	sel(typA, sa)
+	got, err := h.Get(ctx, []byte("k"))
+	if err != nil || string(got) != "original" {
+		return "write-to-copy-changes-original@" + b.Name, fmt.Sprintf("[%s] Put(%s,%q,k)=original; v=Get; Put(%s,%q,k)=v; Put(%s,%q,k)=replaced; Get(%s,%q,k) returns %q (%v)", b.Name, typName(typA), sa, typName(typB), sb, typName(typB), sb, typName(typA), sa, got, err), steps
+	}
+	return "", "", steps
+}
+
 type c11ExtraWitness struct {
 	Kind     string   `json:"kind"` // persist | ctx
 	Backend  string   `json:"backend"`
 	Sessions []string `json:"sessions,omitempty"`
 	Key      string   `json:"key"`
 	Typ      uint8    `json:"typ,omitempty"`
+	Typ2     uint8    `json:"typ2,omitempty"`
 	CtxW     string   `json:"context_session_writer,omitempty"`
 	CtxR     string   `json:"context_session_reader,omitempty"`
 }
@@ -150,12 +239,54 @@ func c11ExtraReplay(w c11ExtraWitness) (string, string) {
 		s, m, _ := c11PersistPass(b, w.Sessions, w.Key)
 		return s, m
 	}
+	if w.Kind == "related-list" {
+		s, m, _ := c11ListPass(b, w.Typ, w.Sessions[0], w.Sessions[1])
+		return s, m
+	}
+	if w.Kind == "copy" {
+		s, m, _ := c11CopyPass(b, w.Typ, w.Sessions[0], w.Typ2, w.Sessions[1])
+		return s, m
+	}
 	s, m, _ := c11CtxPass(b, w.Typ, w.CtxW, w.CtxR, w.Key)
 	return s, m
 }
 
 func c11ExtraPasses(c *mc.Ctx) {
 	sess := []string{"a", "b", "ab", "a_nor", "@a", "Pa"}
+	// passes G and H
+	rel := []string{"a", "aa", "ba", "ab", "aba", "5550100", "15550100"}
+	for _, b := range kvBackends() {
+		if !c.Mine() {
+			continue
+		}
+		for _, typ := range []uint8{db.DATATYPE_STATE, db.DATATYPE_USERDATA} {
+			for i := range rel {
+				for j := range rel {
+					if i == j {
+						continue
+					}
+					if b.HasDump || b.Kind == "pg" {
+						sig, msg, steps := c11ListPass(b, typ, rel[i], rel[j])
+						c.Count("evaluations", 1)
+						c.Count("related_session_listing_cases", 1)
+						c.Count("transitions", int64(steps))
+						if sig != "" {
+							c.Fail(sig, msg, c11ExtraWitness{Kind: "related-list", Backend: b.Name, Typ: typ, Sessions: []string{rel[i], rel[j]}})
+						}
+					}
+					for _, typ2 := range []uint8{db.DATATYPE_STATE, db.DATATYPE_USERDATA} {
+						sig, msg, steps := c11CopyPass(b, typ, rel[i], typ2, rel[j])
+						c.Count("evaluations", 1)
+						c.Count("copied_record_cases", 1)
+						c.Count("transitions", int64(steps))
+						if sig != "" {
+							c.Fail(sig, msg, c11ExtraWitness{Kind: "copy", Backend: b.Name, Typ: typ, Typ2: typ2, Sessions: []string{rel[i], rel[j]}})
+						}
+					}
+				}
+			}
+		}
+	}
 	for _, b := range kvBackends() {
 		for i := 0; i < len(sess); i++ {
 			if !c.Mine() {
